@@ -4,8 +4,15 @@ package engines
 import (
 	_ "polysim/engines/e1"
 	"polysim/engines/lc"
+	_ "polysim/engines/lceth"
+	_ "polysim/engines/lcont"
+	_ "polysim/engines/lcposa"
+	_ "polysim/engines/lctm"
+	_ "polysim/engines/pool"
 	_ "polysim/engines/storage"
+	_ "polysim/engines/vbftround"
 	_ "polysim/engines/wallet"
+	_ "polysim/engines/wire"
 )
 
 func init() { lc.Finalize() }
